@@ -45,6 +45,10 @@ func vMakeAssets(t *testing.T) {
 	vPagesVersion = 1
 	os.WriteFile(filepath.Join(dir, "pages_good", "404.html"), []byte("custom404"), 0o600)
 	os.WriteFile(filepath.Join(dir, "pages_good", "502.html"), []byte("custom502"), 0o600)
+	// custom pages for some statuses only: every other status falls back to the built-in page
+	os.MkdirAll(filepath.Join(dir, "pages_partial"), 0o700)
+	os.WriteFile(filepath.Join(dir, "pages_partial", "404.html"), []byte("custom404"), 0o600)
+	os.WriteFile(filepath.Join(dir, "pages_partial", "502.html"), []byte("custom502"), 0o600)
 	os.MkdirAll(filepath.Join(dir, "pages_bad"), 0o700)
 	os.WriteFile(filepath.Join(dir, "pages_bad", "503.html"), []byte("broken {{ .Message "), 0o600)
 	vAssets = dir
